@@ -325,6 +325,47 @@ func (e *Exec) contractCall(st *State, instr ssa.Instruction, fc *FuncContract, 
 		st.events = append(st.events, "lock:"+lv.Sub.Owner+"."+lv.Sub.Path)
 		st.counts["acquired"]++
 	}
+	// monitors of objects the caller cannot name: forget the guarded fields of every object of that type
+	for _, al := range fc.AnyLocks {
+		of := strings.SplitN(al, ".", 2)
+		if len(of) != 2 {
+			continue
+		}
+		if e.fc != nil {
+			declared := false
+			for _, mine := range e.fc.AnyLocks {
+				declared = declared || mine == al
+			}
+			for _, as := range e.fc.Assigns {
+				declared = declared || as.Field == "**"
+			}
+			if !declared {
+				e.oblige(st, "locks-declared", fmt.Sprintf("any:%s@%s", al, anchor), nil, "callee "+name+" enters a monitor of an unnamed "+of[0]+"; the caller's locks clause must announce 'any "+al+"'", "false", pos)
+			}
+		}
+		t := e.ownerType(of[0])
+		if t == nil {
+			continue
+		}
+		su, ok := t.Underlying().(*types.Struct)
+		if !ok {
+			continue
+		}
+		st.quiet++
+		for _, gf := range e.guardedFields(of[0], of[1]) {
+			for i := 0; i < su.NumFields(); i++ {
+				if su.Field(i).Name() != gf {
+					continue
+				}
+				for _, l := range shape(su.Field(i).Type()) {
+					e.havocKey(st, leafKey(fieldKey(of[0], gf), l), arr(SInt, l.Sort))
+				}
+			}
+		}
+		st.quiet--
+		st.events = append(st.events, "lock:"+al)
+		st.counts["acquired"]++
+	}
 	// 3. frame
 	pre := e.snapHeap(st)
 	for _, lv := range entered {
